@@ -169,3 +169,21 @@ PROPS["C32"] = {
     "trusted_base": ["kani::stub of vm_layout() by a symbolic VMLayout constrained exactly by VMLayout::validate's conditions"],
     "not_covered": ["start > heap_end in the 64-bit style (the code encodes index usize::MAX; no caller does this)"],
 }
+
+PROPS["C35"] = {
+    "level": "proof",
+    "anchors": [("mi_bin_from_size", "src/policy/marksweepspace/native_ms/block_list.rs"), ("mi_wsize_from_size", "src/policy/marksweepspace/native_ms/block_list.rs"),
+                ("new_empty_block_lists", "src/policy/marksweepspace/native_ms/block_list.rs"), ("mi_bin", "src/policy/marksweepspace/native_ms/block_list.rs")],
+    "kani": {"prefix": "c35_", "files": ["c35_sizeclass.rs"], "timeout_quick": 900, "timeout_thorough": 2400},
+    "functions": ["block_list::mi_wsize_from_size", "block_list::mi_bin_from_size", "block_list::mi_bin::<KVM>", "block_list::new_empty_block_lists (the real table)",
+                  "allocator::get_maximum_aligned_size (shared with C33)"],
+    "explanation": "Symbolic size over the whole domain 0..=MAX_BIN_SIZE against the real 49-entry table: bin in 1..=48, cell size >= request, "
+                   "previous bin's cell < request (tight, hence monotone; monotonicity also asserted directly on two symbolic sizes); with a "
+                   "symbolic legal alignment the selected cell holds get_maximum_aligned_size(size, align). The table is strictly increasing, "
+                   "word multiples, ends at MAX_BIN_SIZE (loop of 48 = code constant). Loop-free otherwise: complete.",
+    "bounds": ["table walk unwound to 51 (49 entries, a constant of the code)"],
+    "assumptions": ["size is a multiple of MIN_ALIGNMENT (debug_assert of get_maximum_aligned_size_inner) and the padded size <= MAX_BIN_SIZE "
+                    "(larger requests go to the large-object allocator)"],
+    "trusted_base": [],
+    "not_covered": ["a fresh block's free list (FreeListAllocator::init_block touches six side-metadata tables of a live Block): not brought under contract"],
+}
